@@ -234,8 +234,10 @@ class Connect(Harness):
             length = parts_len(res)
             if "o" not in var["shapes"]:
                 clauses.append(("ring_not_longer_than_hull", length <= hi - lo))
-            for ln, cov in covering_arcs(all_parts, n):
-                pass
+            if "o" in var["shapes"]:
+                # the span has to pass the origin anyway, so it must be the shortest arc doing so
+                clauses.append(("ring_minimal_when_an_input_spans_origin",
+                                L.And([L.Implies(cov, length <= ln) for ln, cov in covering_arcs(all_parts, n)])))
             shortest = []
             for ln, cov in covering_arcs(all_parts, n):
                 shortest.append(L.Implies(L.And(cov, 2 * ln < n), length <= ln))
